@@ -55,8 +55,7 @@ func init() {
 				if cal == nil || cal.Signature.Recv() == nil {
 					return false
 				}
-				r := cal.Signature.Recv().Type().String()
-				return strings.HasSuffix(r, "nfa.PikeVM") || strings.HasSuffix(r, "nfa.BoundedBacktracker")
+				return nfaEngineMethod(cal)
 			}
 			for _, fn := range p.SrcFuncs() {
 				pk := ownPkg(fn)
